@@ -94,7 +94,10 @@ func topicInit(t *Topic, join *ClientComMessage, h *Hub) {
 		}
 		if len(t.exit) > 0 {
 			msg := <-t.exit
-			msg.done <- true
+			// done is nil unless the hub is shutting down and waiting for topics to exit.
+			if msg.done != nil {
+				msg.done <- true
+			}
 		}
 
 		return
